@@ -373,6 +373,62 @@ fn run_cross_aggregation(cx: &mut CaseCx, case: &Value) {
   cx.outcome("cross aggregation");
 }
 
+
+/// a popular measurement must not open the lone report of a RELATED one (common prefix, NUL padding, prefix-of)
+fn run_related_measurements(cx: &mut CaseCx, case: &Value) {
+  let t = case["t"].as_u64().unwrap() as u32;
+  let base = b"https://origin.example/some/long/path/that/is/shared".to_vec(); // 52 bytes
+  let rel: Vec<(&str, Vec<u8>, Vec<u8>)> = vec![
+    ("common 52-byte prefix", [&base[..], b"/a"].concat(), [&base[..], b"/b"].concat()),
+    ("common 32-byte prefix exactly", [&base[..32], b"X-tail-one"].concat(), [&base[..32], b"Y-tail-two"].concat()),
+    ("trailing NUL", b"short".to_vec(), b"short\0".to_vec()),
+    ("trailing NULs up to 32 bytes", b"short".to_vec(), { let mut v = b"short".to_vec(); v.resize(32, 0); v }),
+    ("prefix of the other", base[..40].to_vec(), base.clone()),
+    ("same but last byte", base.clone(), { let mut v = base.clone(); *v.last_mut().unwrap() ^= 1; v }),
+    ("166-byte block: differ only after it", prbytes(1, 200), { let mut v = prbytes(1, 200); v[199] ^= 1; v }),
+  ];
+  for (name, x, y) in rel {
+    let epoch = b"t".to_vec();
+    let mut pop = vec![];
+    for i in 0..t {
+      getrandom::verif::set_group(i + 1);
+      if let Ok(m) = gen_report(&x, &epoch, t, &local_randomness(&x, &epoch, t), &None) {
+        pop.push(m);
+      }
+    }
+    let lone = match gen_report(&y, &epoch, t, &local_randomness(&y, &epoch, t), &Some(prbytes(7, 24))) {
+      Ok(m) => m,
+      Err(_) => continue,
+    };
+    if pop.len() != t as usize {
+      continue;
+    }
+    cx.eval();
+    cx.nontrivial(fnv_str(&format!("{}|{}", t, name)));
+    let shares: Vec<sta_rs::Share> = pop.iter().map(|m| m.share.clone()).collect();
+    if let Ok(Ok(r0)) = recover_msg(&shares) {
+      let mut key = vec![0u8; 16];
+      sta_rs::derive_ske_key(&r0, &epoch, &mut key);
+      let plain = lone.ciphertext.decrypt(&key, "star_encrypt");
+      if sta_rs::load_bytes(&plain).map(|m| m == &y[..]).unwrap_or(false) {
+        cx.viol("C03/related-measurement-key-opens-report", format!("the key recovered from a measurement that reached its threshold opens the lone report of a DIFFERENT measurement ({})", name), json!({"t": t, "relation": name}));
+      } else {
+        cx.count("related_sealed", 1);
+      }
+      if lone.tag == pop[0].tag {
+        cx.viol("C03/related-measurement-same-tag", format!("two different measurements ({}) carry the same tag", name), json!({"t": t, "relation": name}));
+      }
+      // mixing the lone report into the popular group must not help either
+      let mut mixed = shares[..t as usize - 1].to_vec();
+      mixed.push(lone.share.clone());
+      if t >= 2 && matches!(recover_msg(&mixed), Ok(Ok(_))) {
+        cx.viol("C03/related-measurement-shares-combine", format!("t-1 shares of one measurement and one share of a different one ({}) combine", name), json!({"t": t, "relation": name}));
+      }
+    }
+  }
+  cx.outcome("related measurements");
+}
+
 pub fn spec() -> PropSpec {
   PropSpec {
     id: "C03",
@@ -416,7 +472,7 @@ pub fn spec() -> PropSpec {
       },
       Check {
         name: "cross-aggregation",
-        rule: "one measurement and epoch under two thresholds, clients generated back-to-back on one thread (all ordered pairs of thresholds from {1,2,3,5}): the key recovered from the first aggregation must not open a lone report of the second, tags differ",
+        rule: "one measurement and epoch under two thresholds, clients generated back-to-back on one thread (all ordered pairs of thresholds from {1,2,3,5} and pairs congruent modulo 2^8 / 2^16 such as (2,258), (2,65538)): the key recovered from the first aggregation must not open a lone report of the second, tags differ",
         gen: |_| {
           let ts = [1u64, 2, 3, 5];
           let mut v = vec![];
@@ -427,10 +483,21 @@ pub fn spec() -> PropSpec {
               }
             }
           }
+          // thresholds that agree modulo 2^8 / 2^16
+          for (a, b) in [(2u64, 258u64), (1, 257), (3, 259), (2, 65538), (258, 2)] {
+            v.push(json!({"t1": a, "t2": b}));
+          }
           v
         },
         run: run_cross_aggregation,
         min_counts: &[("cross_aggregation_sealed", 10)],
+      },
+      Check {
+        name: "related-measurements",
+        rule: "pairs of DIFFERENT measurements in a relation (common 52 / exactly 32 byte prefix, trailing NUL(s), prefix-of, last byte, differing only after the first cipher block), t in {1,2,3}: the first reaches its threshold; its recovered key must not open the lone report of the second, the tags differ, the shares do not combine",
+        gen: |_| (1..=3u64).map(|t| json!({"t": t})).collect(),
+        run: run_related_measurements,
+        min_counts: &[("related_sealed", 15)],
       },
       Check {
         name: "report-windows",
